@@ -101,3 +101,50 @@ func verifH_C03_depth_guard() {
 func init() {
 	verifHarnesses["verifH_C03_depth_guard"] = verifH_C03_depth_guard
 }
+
+// verifH_C03_trees: Load / Eval over in-memory trees with awkward directory contents; the entry point must return
+// (nil or an error with a stage prefix) — in particular the package search must terminate.
+func verifH_C03_trees() {
+	lib := "package lib\n\nfunc F() int {\n\treturn 1\n}\n"
+	test := "package lib\n\nfunc T() int {\n\treturn 2\n}\n"
+	mainSrc := "package main\n\nimport \"lib\"\n\nfunc Main() int {\n\treturn lib.F()\n}\n"
+	trees := []map[string]string{
+		{"main/main.go": mainSrc, "lib/lib_test.go": test},                                         // imported dir holds only a _test.go file
+		{"main/main.go": mainSrc, "vendor/lib/x_test.go": test, "lib/lib.go": lib},                  // vendor/ candidate holds only a test file, the real one follows
+		{"main/main.go": mainSrc, "lib/readme.txt": "hello"},                                       // no .go file at all
+		{"main/main.go": mainSrc, "lib/lib.go": "//go:build ignore\n\n" + lib},                     // only a build-excluded file
+		{"main/main.go": mainSrc, "lib/lib.go": "func F() int {\n\treturn 1\n}\n"},                 // no package clause
+		{"main/main.go": mainSrc, "lib/lib.go": "package other\n\nfunc F() int {\n\treturn 1\n}\n"}, // package name differs from the directory
+		{"main/main.go": mainSrc, "lib": "package lib\n"},                                          // the import path names a file
+		{"main/main_test.go": mainSrc},                                                            // the Load target holds only a test file
+		{"main/main.go": "package main\n\nimport \"a/b/lib\"\n\nfunc Main() int {\n\treturn lib.F()\n}\n", "b/lib/lib_test.go": test, "lib/lib.go": lib}, // shortened path candidates
+		{"main/main.go": mainSrc, "lib/lib.go": lib}, // control: loads
+	}
+	k := verifChoice("tree", len(trees))
+	viaEval := verifBool("via_eval")
+	vm := New(WithStdout(&verifRecorder{}))
+	var err error
+	if viaEval {
+		_, err = vm.Eval(verifMkFS(trees[k]), "x.go", "import \"lib\"\nlib.F()\n")
+	} else {
+		err = vm.Load(verifMkFS(trees[k]), "main")
+	}
+	verifReach("C03/trees/returned")
+	if err != nil {
+		verifAssert(verifC03HasStage(err.Error()), "C03/trees/error-has-a-stage-prefix")
+	} else if k == len(trees)-1 && !viaEval {
+		rets, cerr := vm.Call("main.Main", 1)
+		verifAssert(cerr == nil && len(rets) == 1 && rets[0].num == 1, "C03/trees/control-loads-and-runs")
+	}
+}
+
+func verifC03HasStage(s string) bool {
+	for _, p := range []string{"error in tokenize", "error in parse", "error in load", "error in compile", "error in run"} {
+		if len(s) >= len(p) && s[:len(p)] == p {
+			return true
+		}
+	}
+	return false
+}
+
+func init() { verifHarnesses["verifH_C03_trees"] = verifH_C03_trees }
